@@ -1,13 +1,14 @@
 """C32 - Operations through a smart server match local operations.
 
-Differential bounded search: every sequence of <= 2 (quick) / 3 (thorough) operations over
-the full alphabet {commit (memory tree), commit via a lightweight checkout, pull from an
-ahead branch, pull / overwriting pull from a diverged branch, push into the subject,
-overwriting push, fetch a revision, set tag, delete tag, set config option, set last
-revision info, lock_write, unlock, reopen, read-everything (tip, revno, tags, option,
-get_parent_map incl. a ghost key, has_revision, all_revision_ids, revision tree, revision
-record, revno<->revid, merge-sorted history, stacked-on), pull FROM the subject into a local
-branch} and every sequence of <= 3 / 4 over a core sub-alphabet, on 1 (quick) / 2 (thorough)
+Differential bounded search over operation sequences: the full alphabet {commit (memory
+tree), commit via a lightweight checkout, pull from an ahead branch, pull / overwriting pull
+from a diverged branch, push into the subject, overwriting push, fetch a revision, set tag,
+delete tag, set config option, set last revision info, lock_write, unlock, reopen,
+read-everything (tip, revno, tags, option, get_parent_map incl. a ghost key, has_revision,
+all_revision_ids, revision trees, revision record, revno<->revid, merge-sorted history,
+graph heads, stacked-on, lock status), pull FROM the subject into a local branch} up to
+length 2 (quick) / 3 (thorough), plus a core sub-alphabet up to length 4 (quick: 5 operations,
+thorough: 9), on 1 (quick) / 2 (thorough)
 generated template histories, is executed on identical mc.vfs stores three times: on the
 local ``vfs+...`` URL, through an in-process smart server (real client medium, protocol v3,
 real SmartServerPipeStreamMedium + request handlers, RemoteBranch/RemoteRepository) and
@@ -36,6 +37,7 @@ KEYS = (b"r1", b"r2", b"r3", b"d2", b"c0", b"c1", b"ghost")
 FULL = ("commit", "commit-co", "pull-src", "pull-div", "pull-div-ow", "push-src", "push-div-ow", "fetch-r3",
         "set-tag", "del-tag", "set-opt", "set-tip", "lock", "unlock", "reopen", "obs", "oth-pull")
 CORE = ("commit", "pull-src", "pull-div-ow", "push-src", "set-tag", "del-tag", "lock", "unlock", "obs")
+QCORE = ("pull-src", "set-tag", "lock", "unlock", "obs")      # quick tier: deeper on fewer operations
 
 # ---- template histories --------------------------------------------------------------------------
 _TEMPLATES = {}
@@ -382,7 +384,10 @@ def compare(hist, seq, results, dumps, acc, best):
                     da = dict(a)
                     db = dict(b)
                     diff = sorted(x for x in da if da.get(x) != db.get(x))
-                    what = "read:" + diff[0]
+                    prev = [o for o in seq[:k] if o not in ("obs", "lock", "unlock", "reopen")]
+                    depth = sum(1 if o == "lock" else -1 if o == "unlock" else 0 for o in seq[:k])
+                    what = "read:%s:after-%s:%s" % (diff[0], prev[-1] if prev else "nothing",
+                                                    "write-locked" if depth > 0 else "unlocked")
                     detail = {"local": da[diff[0]], name: db.get(diff[0]), "all_differing_reads": diff}
                 elif _is_exc(a) or _is_exc(b):
                     what = "exception"
@@ -480,27 +485,33 @@ def template_dump(hist):
 
 
 def plan(ctx):
-    hists = ctx.q(("linear",), ("linear", "merge"))
-    full_len = ctx.q(2, 3)
-    core_len = ctx.q(3, 4)
+    """quick: FULL <= 2 and QCORE <= 4 on the linear history;
+    thorough: FULL <= 3 and CORE <= 4 on the linear history, FULL <= 2 on the merge history."""
     items = []
     seen = set()
-    for h in hists:
-        for s in sequences(FULL, full_len):
-            items.append((h, s))
-            seen.add((h, s))
-    for s in sequences(CORE, core_len):
-        for h in hists[:1]:
-            if (h, s) not in seen:
-                items.append((h, s))
+
+    def add(hist, alphabet, maxlen):
+        for s in sequences(alphabet, maxlen):
+            if (hist, s) not in seen:
+                seen.add((hist, s))
+                items.append((hist, s))
+
+    if not ctx.thorough:
+        table = [("linear", "full", FULL, 2), ("linear", "quick-core", QCORE, 4)]
+    else:
+        table = [("linear", "full", FULL, 3), ("linear", "core", CORE, 4), ("merge", "full", FULL, 2),
+                 ("merge", "quick-core", QCORE, 4)]
+    for hist, _n, alphabet, maxlen in table:
+        add(hist, alphabet, maxlen)
     items.sort(key=lambda x: (len(x[1]), x[0], x[1]))
-    return items, {"histories": list(hists), "full_alphabet": list(FULL), "full_max_len": full_len,
-                   "core_alphabet": list(CORE), "core_max_len": core_len, "sides": list(SIDES)}
+    return items, {"enumerated": [{"history": h, "alphabet": list(a), "max_len": m} for h, _n, a, m in table],
+                   "sides": list(SIDES)}
 
 
 def run(ctx):
     for h in ctx.q(("linear",), ("linear", "merge")):
         template(h)               # built once in the parent, inherited by the forked workers
+        template_dump(h)
     items, bounds = plan(ctx)
     accs = par.pmap(_work, items, seed=ctx.seed, chunks_per_job=8)
     acc = par.merge(accs)
